@@ -57,7 +57,12 @@ class Harness:
 
     def cases_for(self, tier):
         if tier == 'thorough' and self.thorough_cases is not None:
-            return self.thorough_cases
+            # everything the quick tier explores, plus the larger cases
+            out = list(self.cases)
+            for c in self.thorough_cases:
+                if c not in out:
+                    out.append(c)
+            return out
         return self.cases
 
 
